@@ -7,6 +7,7 @@
 import core
 import gen_program as G
 import semcheck
+import templates
 
 RULE = ('type-directed generated programs (2-3 fact tables of <=5 rows with duplicates, 2-5 derived predicates, '
         '1-3 rules each, <=3 atoms per body) over the C01 feature mask: conjunction, disjunction (nested), named '
@@ -39,6 +40,7 @@ def run(ck):
           c['_file'], r['kind'], r.get('message', '')[:150], got, exp), {'program': c['program'], 'pred': c['pred']})
   n = ck.budget(150, 2500)
   made = semcheck.make_programs(ck, n, MASK)
+  made += semcheck.make_programs(ck, ck.budget(40, 600), None, {'templates': ['t_multivalued_calls', 't_nested_disjunction', 't_no_table_rule', 't_record_if']}, builder=templates.build)
   jobs = [(pr.text(), [p.name for p in pr.preds]) for pr, _ in made]
   reals = core.pmap(semcheck.job_real, jobs)
   for (pr, model), job, real in zip(made, jobs, reals):
